@@ -439,7 +439,12 @@ class Contract:
         n0 = len(base.pc)
         k0 = len(ex.skolems)
         disj = []
-        for s2, v in self.call_clause(ex, base, clause, env):
+        ex.in_clause = getattr(ex, "in_clause", 0) + 1
+        try:
+            outcomes = self.call_clause(ex, base, clause, env)
+        finally:
+            ex.in_clause -= 1
+        for s2, v in outcomes:
             if isinstance(v, Exc):
                 if ex.feasible(s2.pc):
                     raise Unsupported(f"clause {clause} of {self.target} raised {v.cls}")
